@@ -67,6 +67,11 @@ def generate(seed, tier):
     longest = max([f['L'] for f in frags] + [1]) + 12
     params = {'method': method, 'encoded': w.random() < 0.7, 'lib': 'LIB'}
     s = st.schedule
+    if w.random() < 0.03:
+        # scaffold-rich assembly for the contig-per-process mode (small contigs adding up to more than one job size)
+        genome, frags = tw.many_small_contigs(w, method)
+        return {'params': params, 'genome': genome, 'workload': frags,
+                'modes': [{'mp': False, 'name': 'S'}, {'mp': True, 'name': 'P', 'width': s.randint(1, 8), 'schedule': {'policy': 'seeded'}, 'seed': seed + 'P'}]}
     modes = [{'mp': False, 'name': 'S'},
              {'mp': True, 'name': 'P', 'width': s.randint(1, 8), 'schedule': {'policy': 'seeded'}, 'seed': seed + 'P'}]
     for t in range(2):
